@@ -360,6 +360,15 @@ class QasmProcessor:
                     gate_args, gate_regs = _gate_processor(command)
                     gate_added = self.qasm_gates[name]
                     curr_gate.gates_inside.append([name, gate_args, gate_regs])
+                elif command[0] == "barrier":
+                    continue
+                elif command[0] == "gate":
+                    raise SyntaxError("QASM: incorrect bracket formatting")
+                else:
+                    err = "QASM: {} is not a valid QASM command.".format(
+                        command[0]
+                    )
+                    raise SyntaxError(err)
             elif command[0] == "gate":
                 # Custom definition of gates.
                 gate_name = command[1]
